@@ -24,6 +24,16 @@ MUTATORS = r"std::vec::Vec::(remove|truncate|clear|drain|pop|retain|retain_mut|s
 def run(ctx):
     fx, res = ctx.fx, ctx.res
     lw = fx.body("clap_builder::output::textwrap::wrap_algorithms::LineWrapper::wrap")
+    # ---- R20.5c (name-independent) a line break needs a position INSIDE this call: `wrap` is called once per text block of a styled line
+    # without a reset in between, so a test on the wrapper's own state (self.line_width != 0) is true at the start of a block that
+    # continues a word — only a call-local counter / the emitted list can say "a word of this block came before"
+    nl = [c for c in lw.calls_to(r"Vec(<[^>]*>)?::(insert|push)$") if const_of(lw, c.args[-1]) == "\n"]
+    for c in nl:
+        gl = [g for g in guard_strs(lw, c.bb) if re.match(r"^[TF]:", g)]
+        local = [g for g in gl if "self." not in g]
+        res.check(bool(local), "R20.5", "effect|break-needs-call-local-position", c.where(), "the newline is inserted only after a word of the same call (%s)" % local[:1],
+                  "LineWrapper::wrap inserts a line break under %s: every condition is over the wrapper's state, none over a position inside this call — when a styled line is wrapped block by block the first word of a block (possibly the tail of a word) is moved to a new line" % gl)
+    res.floor("R20.5", "newline insertions in LineWrapper::wrap", len(nl), 1)
     words = lw.locals_named("words")
     res.floor("R20.1", "`words` local in LineWrapper::wrap", len(words), 1)
     # calls taking &mut words
